@@ -226,7 +226,9 @@ def check_message(mw: MsgWorld, mbox: str, uid: int, raw: bytes, spec: dict | No
                 mw.fail("C07.envelope-subject", det, replay, want, gotb)
         wf = hd.get(b"from", [None])[0]
         if wf is not None and spec is not None:  # only where the intended addresses are known (generated shapes)
-            exp = email.utils.getaddresses([dec2047(wf)], strict=False)
+            # RFC 2047: the address list is parsed first, encoded-words in a display name are decoded
+            # afterwards (what they decode to -- quotes, commas -- is text, not syntax)
+            exp = [(dec2047(n_.encode("latin-1")), a_) for n_, a_ in email.utils.getaddresses([wf.decode("latin-1")], strict=False)]
             fr = env[2] or []
             gota = []
             for ad in fr:
